@@ -571,6 +571,46 @@ fn explore_sparse(e: &mut Eng, kind: Kind, k: usize, mode: Mode, time_only: bool
     }
 }
 
+/// Periodic round sequences of 16 rounds (beyond the "up to 8 rounds" of the property statements,
+/// which they include as prefixes): every primitive word of length <= maxp over the per-round
+/// options repeated, with at most one deviating round; judged after every round.
+fn explore_periodic(e: &mut Eng, kind: Kind, maxp: usize, mode: Mode, time_only: bool, budget: Budget) {
+    let n = kind.n();
+    let per_round = ipow(NOPT as u64, n) as usize;
+    for mask in all_masks(n) {
+        par_periodic(e, per_round, maxp, 16, budget, |seq, e| {
+            let rounds: Vec<Vec<usize>> = seq
+                .iter()
+                .map(|&x| {
+                    let mut o = vec![0usize; n];
+                    decode(x as u64, NOPT as u64, &mut o);
+                    o
+                })
+                .collect();
+            judge_rounds(kind, mask, &rounds, mode, time_only, e)
+        });
+    }
+}
+
+/// Long runs (thorough tier): one round kind repeated to 255..257 rounds, then one round of each kind.
+fn explore_long(e: &mut Eng, kind: Kind, mode: Mode, time_only: bool, budget: Budget) {
+    let n = kind.n();
+    let per_round = ipow(NOPT as u64, n) as usize;
+    for mask in all_masks(n) {
+        par_long(e, per_round, 1, &[255, 256, 257], budget, |seq, e| {
+            let rounds: Vec<Vec<usize>> = seq
+                .iter()
+                .map(|&x| {
+                    let mut o = vec![0usize; n];
+                    decode(x as u64, NOPT as u64, &mut o);
+                    o
+                })
+                .collect();
+            judge_rounds(kind, mask, &rounds, mode, time_only, e)
+        });
+    }
+}
+
 /// Mixed-magnitude states: per component one of {large and consistent with the constraint, small
 /// and inconsistent, zero}; a projection must treat the three components independently.
 fn mixed_magnitudes(e: &mut Eng) {
@@ -834,6 +874,12 @@ fn state_engines(ctx: &Ctx, time_only: bool, tag: &str) -> Vec<Eng> {
     for &k in &kinds {
         explore(&mut e1, k, d2, Mode::State, time_only, budget);
         explore_sparse(&mut e1, k, if deep { 3 } else { 2 }, Mode::State, time_only, budget);
+        if !time_only {
+            explore_periodic(&mut e1, k, 2, Mode::State, time_only, budget);
+        }
+        if deep {
+            explore_long(&mut e1, k, Mode::State, time_only, budget);
+        }
     }
     if deep {
         // connected terminals additionally written directly (own slot and partner slot both carry data)
@@ -842,6 +888,9 @@ fn state_engines(ctx: &Ctx, time_only: bool, tag: &str) -> Vec<Eng> {
         }
     }
     e1.bounds = format!("depth {} => 25^{} round sequences x 4 connection subsets x 7 devices; plus all 8-round sequences with <= {} non-empty rounds{}", d2, d2, if deep { 3 } else { 2 }, if deep { "; plus 49^3 round sequences with direct writes into connected device terminals" } else { "" });
+    if !time_only {
+        e1.bounds.push_str(&format!("; plus periodic 16-round sequences (every primitive word of length <= 2 over the 25 round kinds repeated, at most one deviating round: {} sequences x 4 subsets x 7 devices)", periodic_count(25, 2, 16)));
+    }
     let mut e2 = Eng::new(
         &format!("{}-axle-differential", tag),
         "Axle<N> for N=0..6 and Differential in all four trust modes, same round alphabet and oracle (axle: mean over terminals with data written to all; differential: distrusted branch recomputed from the other two, equal trust = Lagrange solution, nothing happens until every trusted branch has data)",
@@ -915,6 +964,12 @@ fn command_engines(ctx: &Ctx, time_only: bool, tag: &str) -> Vec<Eng> {
     for &k in &kinds {
         explore(&mut e1, k, d2, Mode::Command, time_only, budget);
         explore_sparse(&mut e1, k, if deep { 3 } else { 2 }, Mode::Command, time_only, budget);
+        if !time_only {
+            explore_periodic(&mut e1, k, 2, Mode::Command, time_only, budget);
+        }
+        if deep {
+            explore_long(&mut e1, k, Mode::Command, time_only, budget);
+        }
     }
     if deep {
         for &k in &kinds {
@@ -955,6 +1010,9 @@ fn command_engines(ctx: &Ctx, time_only: bool, tag: &str) -> Vec<Eng> {
     }
     TIME_SPLIT.store(false, std::sync::atomic::Ordering::SeqCst);
     e1.bounds = format!("2-terminal devices depth {}, 3-terminal depth {}, axles 4..6 shallower; plus 8-round sequences with few non-empty rounds; plus a depth-2 pass with round base 1.5e9 ns (timestamps a few ns apart, indistinguishable in f32 seconds); plus a depth-2 pass with the timestamps at the two ends of the i64 range (further apart than i64::MAX)", d2, d3);
+    if !time_only {
+        e1.bounds.push_str(&format!("; plus periodic 16-round sequences for the 2-terminal devices (every primitive word of length <= 2 over the 25 round kinds, at most one deviating round: {} sequences x 4 subsets x 7 devices)", periodic_count(25, 2, 16)));
+    }
     vec![e1]
 }
 
